@@ -4,7 +4,7 @@ import multiprocessing
 import os
 from multiprocessing.managers import DictProxy, SyncManager
 
-from .. import common as C, gen, scen, drv
+from .. import common as C, gen, scen, drv, translators
 from ..runner import Check
 from . import drvgen, drvcommon as D
 
@@ -225,7 +225,7 @@ def shared_runs(r, n_runs, procs_choices):
 
 
 def run():
-    chk = Check("C06")
+    chk = Check("C06", props_modules=["GFO.Props.C06", "GFO.Gen.MemGenCheck"], gen_steps=(translators.gen_memory,))
     chk.build_and_audit()
     r = C.rng("C06")
     quick = C.tier() != "thorough"
